@@ -74,7 +74,7 @@ STRUCT = {
 
 # "K" = the contract automata that serve this property (spec/contract_map.py)
 PROP_RULES = {
-    "C01": ["K", "D:POISON", "SEQ-PROV", "GRAMMAR", "ENTRY", "ENTRY-SIB", "CLONE-FIELDS", "MODE-PAIR", "NO-BACKTRACK", "HELPER-PROV", "READER-SIB", "INPUT-MISC", "OVERRIDE-INV", "MACRO-EXPAND"],
+    "C01": ["K", "D:POISON", "SEQ-PROV", "GRAMMAR", "ENTRY", "ENTRY-SIB", "CLONE-FIELDS", "MODE-PAIR", "NO-BACKTRACK", "HELPER-PROV", "READER-SIB", "INPUT-MISC", "OVERRIDE-INV", "MACRO-EXPAND", "STREAM"],
     "C02": ["K", "D:POISON", "BUILDER-PROV", "GRAMMAR", "CLONE-FIELDS", "ENTRY-SIB", "MODE-PAIR", "HELPER-PROV", "ALLOC-INV"],
     "C03": ["ENTRY", "K", "STREAM", "D:POISON", "MODE-PURE", "GRAMMAR", "ENTRY-SIB", "SUB-INPUT", "D:KEEP*", "HOOKS-WRITERS", "INPUT-MISC", "MODE-PAIR", "HELPER-PROV", "OVERRIDE-INV", "CTOR-INV", "HOOKS-SAVE-REWIND"],
     "C04": ["MODE-PAIR", "MODE-PURE", "K", "D:POISON", "ENTRY-SIB", "OVERRIDE-INV", "REGEX-ANCHOR"],
